@@ -74,12 +74,60 @@ type Term struct {
 	hi, lo int    // OExtract; OZext/OSext: hi = extra bits
 	name   string // OVar, OApp
 	id     int64
+	h      uint64 // structural hash
 }
 
 var termSeq int64
 
 func newTerm(op Op, s Sort, args ...*Term) *Term {
 	return &Term{op: op, sort: s, args: args, id: atomic.AddInt64(&termSeq, 1)}
+}
+
+func mix(h, x uint64) uint64 {
+	h ^= x + 0x9e3779b97f4a7c15 + (h << 6) + (h >> 2)
+	h *= 0xff51afd7ed558ccd
+	h ^= h >> 33
+	return h
+}
+
+// Hash returns the structural hash of t (computed lazily; benign race: the value is deterministic).
+func (t *Term) Hash() uint64 {
+	if t.h != 0 {
+		return t.h
+	}
+	h := mix(uint64(t.op)+1, uint64(int64(t.sort))+77)
+	h = mix(h, t.val)
+	h = mix(h, uint64(t.hi)<<16^uint64(t.lo))
+	for i := 0; i < len(t.name); i++ {
+		h = mix(h, uint64(t.name[i]))
+	}
+	for _, a := range t.args {
+		h = mix(h, a.Hash())
+	}
+	if h == 0 {
+		h = 1
+	}
+	t.h = h
+	return h
+}
+
+// deepSame is structural equality (hash-accelerated).
+func deepSame(a, b *Term) bool {
+	if a == b {
+		return true
+	}
+	if a.Hash() != b.Hash() {
+		return false
+	}
+	if a.op != b.op || a.sort != b.sort || len(a.args) != len(b.args) || a.hi != b.hi || a.lo != b.lo || a.name != b.name || a.val != b.val {
+		return false
+	}
+	for i := range a.args {
+		if !deepSame(a.args[i], b.args[i]) {
+			return false
+		}
+	}
+	return true
 }
 
 var (
@@ -148,6 +196,10 @@ func (t *Term) sval() int64 {
 }
 
 func sameTerm(a, b *Term) bool {
+	return deepSame(a, b)
+}
+
+func sameTermOld(a, b *Term) bool {
 	if a == b {
 		return true
 	}
